@@ -13,5 +13,5 @@ CONSTANTS
   SwapImpl = "rings"
   Profiles <- DesignSmall
 VIEW View
-INVARIANTS TypeOK RingMatchesRefs DestroyedAtMostOnce DeadIsUnreferenced ParentAlive NoOrphans QuiescentNoLeak AcctOnlyLive
+INVARIANTS TypeOK MaxAboveAcct RingMatchesRefs DestroyedAtMostOnce DeadIsUnreferenced ParentAlive NoOrphans QuiescentNoLeak AcctOnlyLive
 PROPERTIES NoEarlyDeath DeathIsFinal
